@@ -9,6 +9,7 @@ Every theorem quantifies over every byte list (`AllBytes bs`: elements < 256) an
 -/
 import AgVerif.Proof.InsnAll
 import AgVerif.Proof.InsnFields
+import AgVerif.Proof.InsnFieldsFull
 namespace AgVerif.C01
 open AgVerif.Insn AgVerif.Gen AgVerif.Spec
 
@@ -106,14 +107,50 @@ theorem fields_spec_partial (f : Fmt) (sf : Dalvik.Format) (hsf : toSpec f = som
   fields_spec_all f sf hsf hv bs hb x h hk h21
 
 /-- the full statement: the same for all 26 specification formats, the variable-register formats included
-    (35c / 45cc: the first A of C, D, E, F, G for A ≤ 5; 3rc / 4rcc: C … C+AA-1).  NOT proved here for
-    35c, 3rc, 45cc, 4rcc (covered by the correspondence and the specification oracle on every run). -/
+    (35c / 45cc: the first A of C, D, E, F, G for A ≤ 5; 3rc / 4rcc: C … C+AA-1).  Proved: `fields_spec_full_proved`
+    (and, with the opcode byte and a weaker side condition, `fields_spec`). -/
 def fields_spec_full : Prop :=
   ∀ (f : Fmt) (sf : Dalvik.Format), toSpec f = some sf →
     ∀ (bs : List Nat), AllBytes bs → ∀ x, decode f bs = .ok x →
       (needsKind f = true → ∃ k, kindOf x.op = some k) → (f = .f21h → x.op = 0x15 ∨ x.op = 0x19) →
       Dalvik.countA (leNat (bs.take (Opcodes.length f))) ≤ 5 ∨ (f ≠ .f35c ∧ f ≠ .f45cc) →
       View.ofInsn x = View.ofMeaning (Dalvik.meaning sf x.op (leNat (bs.take (Opcodes.length f))))
+
+/-- Field meaning for ALL 26 specification formats, every byte string: registers in syntax order — for 35c / 45cc the
+    first A of vC, vD, vE, vF, vG (nibbles C = bits 32-35 … F = bits 44-47, G = bits 8-11, A = bits 12-15), for
+    3rc / 4rcc the range vCCCC … vCCCC+AA-1 —, sign-extended literal, branch offset, pool index BBBB, the proto index
+    HHHH of 45cc / 4rcc, and the opcode byte.  The only side condition beyond `table_kinds` is A ≤ 5 for 35c (the
+    format document defines no register list for A > 5; 45cc with A > 5 does not decode: `count_45cc`). -/
+theorem fields_spec (f : Fmt) (sf : Dalvik.Format) (hsf : toSpec f = some sf)
+    (bs : List Nat) (hb : AllBytes bs) (x : Insn) (h : decode f bs = .ok x)
+    (hk : needsKind f = true → ∃ k, kindOf x.op = some k)
+    (h21 : f = .f21h → x.op = 0x15 ∨ x.op = 0x19)
+    (hA : f = .f35c → Dalvik.countA (leNat (bs.take (Opcodes.length f))) ≤ 5) :
+    View.ofInsn x = View.ofMeaning (Dalvik.meaning sf x.op (leNat (bs.take (Opcodes.length f)))) ∧
+      x.op = Dalvik.bits (leNat (bs.take (Opcodes.length f))) 0 8 :=
+  fields_spec_every f sf hsf bs hb x h hk h21 hA
+
+/-- the statement kept as `fields_spec_full` since the first delivery holds -/
+theorem fields_spec_full_proved : fields_spec_full := by
+  intro f sf hsf bs hb x h hk h21 hA
+  refine (fields_spec f sf hsf bs hb x h hk h21 ?_).1
+  intro hf
+  rcases hA with hA | ⟨h35, _⟩
+  · exact hA
+  · exact absurd hf h35
+
+/-- a constructed 45cc instruction has a register count A ≤ 5 (larger counts are rejected with `Err.count`) -/
+theorem count_45cc (bs : List Nat) (hb : AllBytes bs) (x : Insn) (h : decode .f45cc bs = .ok x) :
+    Dalvik.countA (leNat (bs.take (Opcodes.length .f45cc))) ≤ 5 :=
+  (fs_45cc bs hb x h).2.2
+
+/-- the side condition of `fields_spec` for 35c cannot be dropped: with A = 6 the class decodes, `get_operands()`
+    is empty, and the (undefined) specification reading would list five registers -/
+theorem fields_spec_35c_needs_count :
+    ∃ bs x, AllBytes bs ∧ decode .f35c bs = .ok x ∧ Dalvik.countA (leNat (bs.take (Opcodes.length .f35c))) = 6 ∧
+      View.ofInsn x ≠ View.ofMeaning (Dalvik.meaning .f35c x.op (leNat (bs.take (Opcodes.length .f35c)))) :=
+  ⟨[0x6e, 0x60, 0x03, 0x00, 0x21, 0x43], ⟨.f35c, 0x6e, [6, 3, 1, 2, 3, 4, 0]⟩, by unfold AllBytes; decide, by rfl,
+    by decide, by decide⟩
 
 /-! ### non-vacuity -/
 
@@ -126,6 +163,9 @@ example : decode .f11n [0x12, 0xf7] = .ok ⟨.f11n, 0x12, [7, -1]⟩ := by rfl
 example : decode .f21h [0x15, 0x00, 0xcd, 0xab] = .ok ⟨.f21h, 0x15, [0, -21555, -1412628480]⟩ := by rfl
 example : decode .f10x [0x00, 0x01] = .error .pad := by rfl
 example : 0x3e ∈ Dalvik.unused := by decide
+example : decode .f3rc [0x74, 0x03, 0x07, 0x00, 0x10, 0x00] = .ok ⟨.f3rc, 0x74, [3, 7, 16]⟩ := by rfl
+example : regs ⟨.f3rc, 0x74, [3, 7, 16]⟩ = [16, 17, 18] := by decide
+example : decode .f45cc [0xfa, 0x21, 0x03, 0x00, 0x54, 0x00, 0x09, 0x00] = .ok ⟨.f45cc, 0xfa, [2, 3, 4, 5, 0, 0, 1, 9]⟩ := by rfl
 example : toSpec .f35c = some .f35c ∧ Dalvik.countA (leNat [0x6e, 0x20, 0x03, 0x00, 0x21, 0x00]) ≤ 5 := by decide
 
 end AgVerif.C01
